@@ -405,3 +405,60 @@ def fmt_poly(a: Poly) -> str:
         cs = str(c) if c.denominator == 1 else f"{c.numerator}/{c.denominator}"
         parts.append(f"{cs}*{mono}" if mono else cs)
     return " + ".join(parts)
+
+
+def _selftest():
+    F = Fraction
+    x, y = ["x"], ["y", "?a"]
+    t1 = ["*", ["+", x, y], ["-", x, y]]
+    t2 = ["-", ["*", x, x], ["*", y, y]]
+    assert r_equal(from_tree(t1), from_tree(t2))
+    assert r_proportional(from_tree(["*", "2", t1]), from_tree(t2)) == 2
+    assert r_proportional(from_tree(["+", t1, "1"]), from_tree(t2)) is None
+    # (- a b) = a - b, (/ a b) = a / b
+    assert eval_tree(["-", "3", "1"], {}) == 2 and eval_tree(["/", "3", "2"], {}) == F(3, 2)
+    assert eval_tree(["/", x, ["-", y, y]], {("x",): 1, ("y", "?a"): 2}) is None
+    # x/y + y/x == (x^2 + y^2)/(x y)
+    lhs = from_tree(["+", ["/", x, y], ["/", y, x]])
+    rhs = from_tree(["/", ["+", ["*", x, x], ["*", y, y]], ["*", x, y]])
+    assert r_equal(lhs, rhs) and not r_equal(lhs, from_tree(["/", x, y]))
+    val = {("x",): F(1, 2), ("y", "?a"): F(-2)}
+    assert r_eval(lhs, val) == eval_tree(["+", ["/", x, y], ["/", y, x]], val) == F(1, 2) / -2 + -2 / F(1, 2)
+    # x*x/x == x as functions although undefined at 0 as a tree
+    assert r_equal(from_tree(["/", ["*", x, x], x]), from_tree(x))
+    assert eval_tree(["/", ["*", x, x], x], {("x",): 0}) is None
+    for bad, kind in ((["^", x, "2"], "power-operator"), (["+", x, y, x], "non-binary-operator"),
+                      (["+", x, "none"], "foreign-leaf"), (["+", x, ["z"]], "foreign-leaf"),
+                      (["+", x], "non-binary-operator"), (["*", x, "1e-05"], "foreign-leaf")):
+        try:
+            validate(bad, [("x",), ("y", "?a")])
+            raise AssertionError(bad)
+        except TreeError as e:
+            assert e.kind == kind, (bad, e.kind)
+    validate(["/", "1", ["*", x, "-0.2500"]], [("x",)])
+    # error-bounded normal form: 0.33*x + 1 against x/3 + 1
+    n, d, en, ed = from_tree_with_error(["+", ["*", x, "0.33"], "1"], F(1, 200))
+    a = from_tree(["+", ["/", x, "3"], "1"])
+    assert feasible_scale(p_mul(a[0], d), p_mul(n, a[1]), p_mul(en, p_abs(a[1])), p_mul(p_abs(a[0]), ed),
+                          fixed=1) == (1, 1)
+    assert feasible_scale(p_mul(a[0], d), p_mul(n, a[1]), {}, {}, fixed=1) is None
+    # 2x - 1 is not a rounding of 2.99999x - 1 at 2 digits for any positive scale; 2x <= 0 is one of 2.99999x <= 0
+    a = from_tree(["-", ["*", x, "2.99999"], "1"])[0]
+    n, d, en, ed = from_tree_with_error(["-", ["*", x, "2"], "1"], F(1, 200))
+    assert feasible_scale(a, n, en, {}) is None
+    a = from_tree(["*", x, "2.99999"])[0]
+    n, d, en, ed = from_tree_with_error(["*", x, "2"], F(1, 200))
+    lo, hi = feasible_scale(a, n, en, {})
+    assert lo < F(2, 3) < hi and feasible_scale(a, n, en, {}, fixed=1) is None
+    # negative scale only when asked for
+    assert feasible_scale(p_neg(a), n, en, {}) is None and feasible_scale(p_neg(a), n, en, {}, positive=False)
+    # a vanished term needs a floor
+    a = from_tree(["+", ["*", x, "0.12"], "0.005"])[0]
+    n, d, en, ed = from_tree_with_error(["*", x, "0.12"], F(1, 200))
+    assert feasible_scale(a, n, en, {}, fixed=1) is None
+    assert feasible_scale(a, n, en, {}, fixed=1, floor=F(1, 200)) == (1, 1)
+    print("polyalg selftest ok")
+
+
+if __name__ == "__main__":
+    _selftest()
